@@ -259,6 +259,19 @@ def fmt_info(path_value, date, extra_first=None):
     return s
 
 
+NEIGHBOUR_SHAPES = ['.%s', '%s~', '.%s.tmp', '%s.tmp', '%s.part', '.%s.swp', '#%s#', '%s.new', '%s.bak', '.~%s', '%s.lock', '%s.trashinfo', '.%s.trashinfo',
+                    '%s.trashinfo.tmp', '.%s_1', '%s_1~']
+
+
+def neighbour_names(rng, name, k=3):
+    """names an implementation could plausibly use as a temporary / backup / partial name next to ``name``: entries so called
+    are trashed beforehand, they must survive whatever a later command does for ``name``"""
+    shapes = rng.sample(NEIGHBOUR_SHAPES, min(k, len(NEIGHBOUR_SHAPES)))
+    if rng.random() < 0.6 and '.%s' not in shapes:
+        shapes[0] = '.%s'
+    return [sh % name for sh in shapes]
+
+
 def add_trashed(steps, tdir, name, path_value, date, kind='file', info_content=None, tag=''):
     """build steps for one well-formed trashed entry (payload + info)"""
     steps.append(['d', tdir, 0o700])
